@@ -176,6 +176,53 @@ int main(int argc, char** argv)
                 }
             }
         }
+        // (1e) sizes: 60 toggles (beyond a 32- or 64-bit mask over toggles), defaults 0 / 1 / 2 by rank; every bundle of two
+        // letters with one of them at the ranks around 31 / 32 and at the ends, and every toggle alone
+        {
+            Decl W;
+            std::string letters = "abcdefghijklmnopqrstuvwxyzABCDEFGHIJKLMNOPQRSTUVWXYZ01234567";
+            for (int i = 0; i < 60; i++)
+            {
+                char nm[16];
+                snprintf(nm, sizeof nm, "flag%02d", i);
+                W.items.push_back(Item::tog(nm, std::string(1, letters[i]), i % 2 == 0, i % 3));
+            }
+            W.accepted = 0;
+            std::vector<std::vector<std::string>> avs = { {} };
+            for (int i : { 0, 1, 30, 31, 32, 33, 34, 58, 59 })
+                for (int j = 0; j < 60; j++)
+                {
+                    avs.push_back({ std::string("-") + letters[i] + letters[j] });
+                    avs.push_back({ std::string("-") + letters[j] + letters[i] + letters[j] });
+                }
+            for (int j = 0; j < 60; j++)
+            {
+                avs.push_back({ std::string("-") + letters[j] });
+                avs.push_back({ "--" + W.items[j].name });
+                if (W.items[j].rev)
+                    avs.push_back({ "--no-" + W.items[j].name });
+            }
+            avs.push_back({ "-" + letters });
+            for (auto& av : avs)
+            {
+                long idx = ctx.next;
+                ctx.each([&] { return chk.describe(W, av, {}); }, [&](mc::Report& rep) { chk.run_case(W, av, {}, rep, idx); });
+            }
+        }
+        // (1f) particular names: one toggle's long name extends the other's (`tog`, `tog-more`), both reversible or not
+        for (int r1 = 0; r1 < 2; r1++)
+            for (int r2 = 0; r2 < 2; r2++)
+                for (int d1 : { 0, 1 })
+                {
+                    Decl P;
+                    P.items = { Item::tog("tog", "t", r1, d1), Item::tog("tog-more", "m", r2, 1 - d1), Item::tog("to", "", true) };
+                    P.accepted = 0;
+                    std::vector<std::string> al = { "--tog", "--no-tog", "--tog-more", "--no-tog-more", "--to", "--no-to", "-t", "-m", "-tm" };
+                    for_all_vectors(al, a.asan() ? 2 : 3, ctx, [&](const std::vector<std::string>& av) {
+                        long idx = ctx.next;
+                        ctx.each([&] { return chk.describe(P, av, {}); }, [&](mc::Report& rep) { chk.run_case(P, av, {}, rep, idx); });
+                    });
+                }
         // (2) environment words through parse(), with and without the toggle on the command line
         for (auto& D : decls)
         {
